@@ -64,6 +64,10 @@ def job(j):
         return dict(index=[float(t) / scale for t in res.index], rows=rows.tolist())
     # adaptive: the compiled function itself, evaluated on the half-knot lattice
     try:
+        if j.get('prelude'):      # an adaptive compile with the same number of samples over another time span came first
+            from pyrates import clear_frontend_caches
+            linmodel.compile_model(m, scale * 2, cfg['vec'], inputs=_inputs(m, v['form'], scale * 2, cfg['steps']), solver='scipy')
+            clear_frontend_caches()
         func, args, names, pos = linmodel.compile_model(m, scale, cfg['vec'], inputs=inp, solver='scipy')
         n = cfg['steps']
         T = n * scale
@@ -205,7 +209,8 @@ def run(ctx):
             continue
         for f in forms_for(case):
             k += 1
-            jobs.append(dict(case=case, mode='func', variant=dict(scale=[1.0, 0.5, 0.25][k % 3], precision='float64', form=f)))
+            jobs.append(dict(case=case, mode='func', variant=dict(scale=[1.0, 0.5, 0.25][k % 3], precision='float64', form=f),
+                             prelude=(k % 4 == 1)))
     results = run_cases(job, jobs, timeout=300)
     verd = {}
     for j, obs in zip(jobs, results):
